@@ -10,14 +10,24 @@ using namespace c15;
 
 // PCA with a selectable algorithm (m_algorithm is protected and otherwise always AUTO)
 struct PCAx : public PCA{
-	PCAx(bool whitening, int alg): PCA(whitening){
-		m_algorithm = alg == 1 ? STANDARD : alg == 2 ? SMALL_SAMPLE : AUTO;
-	}
+	PCAx(bool whitening, int alg): PCA(whitening){ setAlgorithm(alg); }
+	PCAx(UnlabeledData<RealVector> const& data, bool whitening): PCA(data, whitening){}
+	void setAlgorithm(int alg){ m_algorithm = alg == 1 ? STANDARD : alg == 2 ? SMALL_SAMPLE : AUTO; }
 	std::size_t nPoints() const{ return m_l; }
 };
 
-// pca whitening alg m | table
-static std::string opPca(Args& A){
+// objects that live as long as a history (`op ; op ; ...`)
+struct Session{
+	PCAx pca; LinearModel<> enc, dec;
+	LDA lda; LinearClassifier<> cls;
+	std::size_t step;
+	Session(): pca(false, 0), lda(0.0), step(0){}
+};
+
+// pca|pcat|pcac whitening alg m | table
+// entry 0 (pca): setData + encoder + decoder;  entry 1 (pcat): train(model) with a model of m outputs, then decoder;
+// entry 2 (pcac): the constructor PCA(data, whitening) (algorithm AUTO), then encoder + decoder
+static std::string opPca(Args& A, int entry, Session* S){
 	std::size_t whitening = A.nat(), alg = A.nat(), m = A.nat();
 	Table T; if(!T.read(A, 0) || !A.done() || T.d == 0 || whitening > 1 || alg > 2) return "bad-op";
 	std::size_t n = T.d, l = T.n;
@@ -26,12 +36,33 @@ static std::string opPca(Args& A){
 	if(mEff > (small ? l : n)) return "bad-op";          // more components than computed directions
 	Out o;
 	UnlabeledData<RealVector> data = T.unlabeled();
-	PCAx pca(whitening == 1, (int)alg);
-	LinearModel<> enc, dec;
+	if(entry == 2 && alg != 0) return "bad-op";
+	PCAx freshPca(whitening == 1, (int)alg);
+	LinearModel<> freshEnc, freshDec;
+	// history: the PCA object of the previous steps (holding their decomposition) is configured anew and given the
+	// data of this step; the encoder / decoder models of the previous step are overwritten
+	PCAx& pca = S ? S->pca : freshPca;
+	LinearModel<>& enc = S ? S->enc : freshEnc; LinearModel<>& dec = S ? S->dec : freshDec;
+	struct Run{
+		static void go(PCAx& pca, LinearModel<>& enc, LinearModel<>& dec, UnlabeledData<RealVector> const& data, int entry, bool whitening, int alg, std::size_t m, std::size_t mEff, std::size_t n){
+			if(entry == 2) pca = PCAx(data, whitening);
+			else{ pca.setWhitening(whitening); pca.setAlgorithm(alg); }
+			if(entry == 1){ enc.setStructure(n, mEff, true); pca.train(enc, data); }
+			else{ if(entry == 0) pca.setData(data); pca.encoder(enc, m); }
+			pca.decoder(dec, m);
+		}
+	};
 	fpClear();
-	try{ pca.setData(data); pca.encoder(enc, m); pca.decoder(dec, m); }
+	try{ Run::go(pca, enc, dec, data, entry, whitening == 1, (int)alg, m, mEff, n); }
 	catch(shark::Exception const&){ return "exc"; }
 	bool inexact = fpInexact();
+	if(S){
+		PCAx p2(false, 0); LinearModel<> e2, d2;
+		Run::go(p2, e2, d2, data, entry, whitening == 1, (int)alg, m, mEff, n);
+		if(!sameVec(pca.mean(), p2.mean()) || !sameVec(pca.eigenvalues(), p2.eigenvalues()) || !sameMat(pca.eigenvectors(), p2.eigenvectors())
+		   || !sameMat(enc.matrix(), e2.matrix()) || !sameVec(enc.offset(), e2.offset()) || !sameMat(dec.matrix(), d2.matrix()) || !sameVec(dec.offset(), d2.offset()))
+			o.fail("reuse-dependent");
+	}
 	RealVector ev = pca.eigenvalues(); RealMatrix V = pca.eigenvectors();
 	o.nat("cols", V.size2());
 	o.vec("mean", pca.mean()); o.vec("eigenvalues", ev); o.mat("eigenvectors", V);
@@ -94,7 +125,7 @@ static std::string opPca(Args& A){
 }
 
 // lda regNum regShift | table + class column ; wlda regNum regShift | table + class + integer weight
-static std::string opLda(Args& A, bool weighted){
+static std::string opLda(Args& A, bool weighted, Session* Se){
 	long long regNum = A.next(); std::size_t regShift = A.nat();
 	if(A.bad || regNum < 0 || regShift > 40) return "bad-op";
 	Table T; if(!T.read(A, weighted ? 2 : 1) || !A.done() || T.d == 0) return "bad-op";
@@ -107,8 +138,13 @@ static std::string opLda(Args& A, bool weighted){
 		if(weighted){ w[i] = T.rows[i][d + 1]; if(!(w[i] > 0)) return "bad-op"; }
 	}
 	Out o;
-	LDA trainer(reg);
-	LinearClassifier<> model;
+	LDA freshTrainer(reg);
+	LinearClassifier<> freshModel;
+	// history: the trainer of the previous steps with a new regularisation (setter or parameter vector, alternating;
+	// unweighted and weighted training mixed) and the classifier of the previous step
+	LDA& trainer = Se ? Se->lda : freshTrainer;
+	LinearClassifier<>& model = Se ? Se->cls : freshModel;
+	if(Se){ if(Se->step++ % 2) trainer.setParameterVector(RealVector(1, reg)); else trainer.setRegularization(reg); }
 	struct Mk{
 		static LabeledData<RealVector, unsigned int> plain(std::vector<RealVector> const& X, std::vector<unsigned int> const& y, std::vector<std::size_t> const& part){
 			LabeledData<RealVector, unsigned int> data = createLabeledDataFromRange(X, y, X.size());
@@ -130,6 +166,12 @@ static std::string opLda(Args& A, bool weighted){
 	bool inexact = fpInexact();
 	RealMatrix Z = model.decisionFunction().matrix(); RealVector b = model.decisionFunction().offset();
 	o.mat("Z", Z); o.vec("bias", b);
+	if(Se){
+		LinearClassifier<> m2;
+		if(weighted) freshTrainer.train(m2, Mk::weightedData(X, y, w, 1.0, T.sizes)); else freshTrainer.train(m2, Mk::plain(X, y, T.sizes));
+		if(!sameMat(Z, m2.decisionFunction().matrix()) || !sameVec(b, m2.decisionFunction().offset())) o.fail("reuse-dependent");
+		if(trainer.regularization() != reg || trainer.parameterVector().size() != 1 || trainer.parameterVector()(0) != reg) o.fail("reuse-configuration");
+	}
 	bool finite = true;
 	for(std::size_t c = 0; c < Z.size1(); ++c){ if(!std::isfinite(b(c))) finite = false; for(std::size_t j = 0; j < d; ++j) if(!std::isfinite(Z(c, j))) finite = false; }
 	if(!finite){ o.fail("lda-nonfinite"); return o.line("ok", inexact); }
@@ -183,19 +225,13 @@ static std::string opLda(Args& A, bool weighted){
 }
 
 
-int main(){
-	std::string line;
-	while(std::getline(std::cin, line)){
-		std::vector<std::string> t = vh::tokens(line);
-		if(t.empty()){ std::cout << "@ \n"; continue; }
-		Args A;
-		std::string res;
-		if(!allInt(t, 1, A.a)) res = "bad-op";
-		else if(t[0] == "pca") res = opPca(A);
-		else if(t[0] == "lda") res = opLda(A, false);
-		else if(t[0] == "wlda") res = opLda(A, true);
-		else res = "bad-op";
-		std::cout << "@ " << res << std::endl;   // "@ " marks protocol lines (BLAS may print warnings to stdout)
-	}
-	return 0;
+static std::string dispatch(std::string const& op, Args& A, Session* S){
+	if(op == "pca") return opPca(A, 0, S);
+	if(op == "pcat") return opPca(A, 1, S);
+	if(op == "pcac") return opPca(A, 2, S);
+	if(op == "lda") return opLda(A, false, S);
+	if(op == "wlda") return opLda(A, true, S);
+	return "bad-op";
 }
+
+int main(){ return runProtocol<Session>(dispatch); }
